@@ -1,5 +1,7 @@
 import TinyFlux.Generated.Footprint
 import TinyFlux.Model.Footprint
+import TinyFlux.Generated.CallGraph
+import TinyFlux.Model.CallGraph
 
 /-! # C18: the state the code keeps is the state the Model has (utils)
 
@@ -13,5 +15,12 @@ open TinyFlux
 theorem no_hidden_state :
     Generated.moduleState.lookup "utils" = Model.Footprint.modules.lookup "utils" ∧
     Generated.classState.map (·.1) = Model.Footprint.classNames := by decide
+
+/-- every function of these classes / modules calls, catches and raises exactly what it did when the Model was
+    written against it and validated (`Model/CallGraph.lean`); and there is no table the Model does not know -/
+theorem code_uses_the_modelled_primitives :
+    Generated.calls_utils_toplevel = Model.CallGraph.calls_utils_toplevel ∧
+    Generated.calls_utils_FrozenDict = Model.CallGraph.calls_utils_FrozenDict ∧
+    Generated.callGraphTables = Model.CallGraph.callGraphTables := ⟨rfl, rfl, rfl⟩
 
 end TinyFlux.Props.C18
